@@ -53,6 +53,10 @@ Kernels == {
     K("stopelse", << "10 X=1:IF X THEN STOP ELSE PRINT \"NO\"", "20 PRINT \"AFTER\";X", "30 IF 0 THEN PRINT 1 ELSE STOP", "40 PRINT \"END\"" >>),
     \* STEP 0 counts as a positive step: the body runs once when the start is already past the limit
     K("stepzero", << "10 FOR I=5 TO 1 STEP 0:PRINT I;:NEXT I", "20 FOR J=3 TO 2 STEP S:PRINT J;:NEXT J", "30 PRINT \"E\"" >>),
+    \* statements follow each other without a colon wherever an expression ends
+    K("nocolon", << "10 C=C+1 INPUT A:PRINT C;A", "20 GOSUB 100 INPUT A$", "30 PRINT C A$ C+1", "40 END", "100 C=C+10 RETURN" >>),
+    \* strings made by coercion (a numeric DATA item or reply read into a string variable) are strings like any other
+    K("coerce",  << "10 DATA 5,2.5,abc", "20 READ A$,B$,C$:PRINT A$=\"5\";A$<>\"5\";B$=\"2.5\";C$=\"abc\";A$<\"6\"", "30 INPUT D$:PRINT D$=\"5\";D$=A$;D$+A$" >>),
     K("input2",  << "10 IF 1 THEN INPUT X ELSE PRINT \"NO\"", "20 GOSUB 100:PRINT X;S$", "30 IF 0 THEN PRINT 1 ELSE INPUT Q(2):PRINT Q(2)", "40 END",
                     "100 INPUT S$:RETURN" >>)
 }
@@ -94,7 +98,9 @@ MCtxs == { [n |-> "alone", a |-> B("10 "), z |-> <<>>],
            [n |-> "else", a |-> B("10 IF 0 THEN PRINT \"t\"; ELSE "), z |-> <<>>],
            [n |-> "thenmore", a |-> B("10 IF X THEN "), z |-> B(":PRINT \"m\";")],
            \* an ELSE behind a THEN clause of several statements is a syntax error when reached -- also after a break and CONT
-           [n |-> "thenmoreelse", a |-> B("10 IF X THEN PRINT \"p\";:"), z |-> B(" ELSE PRINT \"e\";")] }
+           [n |-> "thenmoreelse", a |-> B("10 IF X THEN PRINT \"p\";:"), z |-> B(" ELSE PRINT \"e\";")],
+           \* no colons at all: a statement ends where its last expression ends
+           [n |-> "nocolon", a |-> B("10 X=X+1 "), z |-> B(" Z=X+2 PRINT \"z\";Z")] }
 MatrixKernels == { [name |-> st.n \o "_" \o cx.n,
                     lines |-> << B("5 X=1:DEF F(Y)=Y*2:DATA 1,d,2,e:FOR I=1 TO 2"), cx.a \o st.s \o cx.z,
                                  B("20 PRINT \"|\";X;I:IF I<2 THEN NEXT I"), B("30 END"), B("100 PRINT \"sub\";:RETURN") >>]
